@@ -156,7 +156,7 @@ Fixpoint prog_ok (lent : list nat) (ps : list pitem) (g : ghost) : Prop :=
   match ps with
   | [] => lent = [] /\ g_refs g b0 = 0%nat /\ g_free g b0 = false      (* a thread ends holding nothing and owing nothing *)
   | POp c :: r => okc c g (fun _ g' => prog_ok lent r g')
-  | PSpawn ch k :: r => lent = [] /\ (k <= g_refs g b0)%nat /\ kof ch = k /\ bof ch = false /\ prog_ok [] r (g_give g k)
+  | PSpawn ch k :: r => (k <= g_refs g b0)%nat /\ kof ch = k /\ bof ch = false /\ prog_ok lent r (g_give g k)
   | PJoin ch :: r => prog_ok lent r g
   | PLend ch :: r => (lent = [] -> (0 < g_refs g b0)%nat /\ g_bor g b0 = false) /\ bof ch = true /\ prog_ok (ch :: lent) r (g_lendout lent g)
   | PJoinB ch :: r => In ch lent /\ prog_ok (List.remove Nat.eq_dec ch lent) r (g_joinb (List.remove Nat.eq_dec ch lent) g)
@@ -401,7 +401,7 @@ Proof.
     + apply loans_same; [exact W|exact Ht|reflexivity|reflexivity].
   - (* spawn *)
     destruct (W3 t Ht Hst) as (Hag & Hok & Hbor). rewrite Hc, Hr in Hok. cbn [okc prog_ok] in Hok.
-    destruct Hok as (Hnil & Hk & Hkof & Hbof & Hrest).
+    destruct Hok as (Hk & Hkof & Hbof & Hrest).
     destruct (step_spec _ _ _ _ Hm) as (_ & _ & Hst' & Hlen & Hoth & Hlendt & Hspec). cbn [act_spec] in Hspec.
     destruct Hspec as (Hct & _ & Hsc & Hcl & R1 & R2 & R3 & R4 & R5 & C1 & C2 & C3 & C4 & C5 & C6).
     assert (Hlch : lend (getth (ms cf) ch) = 0).
@@ -411,11 +411,11 @@ Proof.
       destruct (Nat.eq_dec u ch) as [->|Huc]; [congruence|]. rewrite Hoth; [reflexivity|exact Hut|cbn [second]; congruence]. }
     apply WT_update; [exact W| |exact Hlen|exact Ht|exact Hst'| | | | | |].
     + eapply pres; eauto.
-    + cbn [gh lt]. destruct Hag as (A1 & A2 & A3 & A4). rewrite Hnil in A1 |- *. cbn [hid] in A1 |- *.
+    + cbn [gh lt]. destruct Hag as (A1 & A2 & A3 & A4).
       unfold agreeh, g_give; cbn [g_refs g_excl g_free g_fen].
       rewrite !setf_eq. rewrite R1, R2, R3, R4. split; [lia|]. split; [reflexivity|]. split; [exact A3|].
       intros Hf. eapply cle_trans; [apply A4; exact Hf|exact R5].
-    + cbn [cur gh lt rest okc]. rewrite Hnil. exact Hrest.
+    + cbn [cur gh lt rest okc]. exact Hrest.
     + cbn [gh lt]. unfold g_give. cbn [g_bor]. rewrite Hlendt. intros Hb.
       destruct (Hbor Hb) as [Hl|[Hl|(_ & Hf)]]; [left; exact Hl|right; left; exact Hl|]. rewrite Hr in Hf. discriminate.
     + intros u Hu. destruct (Nat.eq_dec u ch) as [->|Hne].
